@@ -14,8 +14,10 @@ import (
 	_ "go.nanomsg.org/mangos/v3/transport/wss"
 	"go.nanomsg.org/mangos/v3/vh/kinds"
 	"go.nanomsg.org/mangos/v3/vh/kit"
+	"go.nanomsg.org/mangos/v3/vh/vnet"
 	"go.nanomsg.org/mangos/v3/vh/vt"
 	"go.nanomsg.org/mangos/v3/vz/vexplore"
+	"go.nanomsg.org/mangos/v3/vz/vsched"
 )
 
 func init() {
@@ -237,6 +239,106 @@ var failures = []failure{
 		expect("Dial(closed dialer)", call("Dial-closed", 0, d.Dial), mangos.ErrClosed)
 		expect("Dialer.Close(again)", call("Dialer.Close2", 0, d.Close), mangos.ErrClosed)
 	}},
+	{"tcp-peer-hangs-up-during-handshake", func(w *world) bool { return !vsched.Conformance }, func(w *world) {
+		// the real transport/tcp + conn.go over the in-memory network: a peer connects to our
+		// listener and closes (after 0, 3 or 8 header bytes); the listener must keep accepting
+		w.n++
+		addr := fmt.Sprintf("127.0.0.1:%d", 4100+w.n)
+		if err := call("Listen(tcp)", 0, func() error { return w.x.S.Listen("tcp://" + addr) }); err != nil {
+			kit.Failf("tcp-listen", "Listen(tcp over vnet): %s", kit.ErrName(err))
+		}
+		ep := net.VGet(addr)
+		hdr := []byte{0, 'S', 'P', 0, byte(w.x.S.Info().Peer >> 8), byte(w.x.S.Info().Peer), 0, 0}
+		for _, n := range []int{0, 3} {
+			h := ep.Connect()
+			h.Feed(hdr[:n])
+			h.EOF()
+			kit.Quiesce()
+			kit.Sleep(50 * time.Millisecond)
+			kit.Quiesce()
+			if !h.ClosedByMangos() {
+				kit.Failf("aborted-handshake-not-closed", "a connection that ended after %d header bytes was left open", n)
+			}
+		}
+		kit.Count("error-provoked")
+		w.dropAllPeers()
+		before := len(w.pipes)
+		g := ep.Connect()
+		g.Feed(hdr)
+		kit.Quiesce()
+		kit.Sleep(50 * time.Millisecond)
+		kit.Quiesce()
+		if len(w.pipes) != before+1 {
+			kit.Failf("listener-stopped-accepting:tcp", "%s: after two peers hung up during the handshake a well-behaved TCP peer does not attach any more", w.k.Name)
+		}
+		g.Reset()
+		kit.Quiesce()
+	}},
+	{"tcp-dialer-peer-hangs-up-during-handshake", func(w *world) bool { return !vsched.Conformance }, func(w *world) {
+		w.n++
+		addr := fmt.Sprintf("127.0.0.1:%d", 4200+w.n)
+		ep := net.VGet(addr)
+		ep.HarnessListen(true)
+		d, err := w.x.S.NewDialer("tcp://"+addr, map[string]interface{}{mangos.OptionDialAsynch: true, mangos.OptionReconnectTime: 10 * time.Millisecond})
+		if err != nil {
+			kit.Failf("newdialer-tcp", "NewDialer(tcp over vnet): %s", kit.ErrName(err))
+		}
+		if err := call("Dial(tcp,async)", 0, d.Dial); err != nil {
+			kit.Failf("dial-tcp-async", "asynchronous Dial: %s", kit.ErrName(err))
+		}
+		kit.Quiesce()
+		if len(ep.Dialed) != 1 {
+			kit.Failf("dial-tcp-no-connection", "the dialer made %d connections", len(ep.Dialed))
+		}
+		ep.Dialed[0].EOF() // the server hangs up without sending its header
+		kit.Quiesce()
+		kit.Count("error-provoked")
+		w.dropAllPeers()
+		before := len(w.pipes)
+		kit.Sleep(200 * time.Millisecond)
+		kit.Quiesce()
+		if len(ep.Dialed) < 2 {
+			kit.Failf("dialer-stopped-redialling:tcp", "%s: the server hung up during the handshake and the dialer never tried again", w.k.Name)
+		}
+		hdr := []byte{0, 'S', 'P', 0, byte(w.x.S.Info().Peer >> 8), byte(w.x.S.Info().Peer), 0, 0}
+		last := ep.Dialed[len(ep.Dialed)-1]
+		last.Feed(hdr)
+		kit.Quiesce()
+		if len(w.pipes) != before+1 {
+			kit.Failf("dialer-stopped-redialling:tcp-attach", "%s: the redialled connection completed its handshake but did not attach", w.k.Name)
+		}
+		kit.Count("dialer-still-redials")
+		_ = call("Dialer.Close", 0, d.Close)
+		last.Reset()
+		kit.Quiesce()
+	}},
+	{"dialer-closed-then-peer-drops", nil, func(w *world) {
+		w.n++
+		name := fmt.Sprintf("c12-cdd%d", w.n)
+		ep := vt.Get(name)
+		ep.Script(vt.DialOK)
+		w.dropAllPeers()
+		d, err := w.x.S.NewDialer("vt://"+name, map[string]interface{}{mangos.OptionReconnectTime: 10 * time.Millisecond})
+		if err != nil {
+			kit.Failf("newdialer", "NewDialer: %s", kit.ErrName(err))
+		}
+		if err := call("Dial", 0, d.Dial); err != nil {
+			kit.Failf("dial", "Dial: %s", kit.ErrName(err))
+		}
+		_ = call("Dialer.Close", 0, d.Close)
+		ep.PipeAt(0).DropNow()
+		kit.Quiesce()
+		kit.Sleep(time.Second)
+		kit.Quiesce()
+		if ep.NumDials() != 1 {
+			kit.Failf("dial-after-close", "a closed dialer made %d further attempt(s) after its connection was lost", ep.NumDials()-1)
+		}
+		kit.Count("error-provoked")
+		_ = call("Dialer.GetOption", 0, func() error { _, err := d.GetOption(mangos.OptionReconnectTime); return err })
+		_ = call("Dialer.SetOption", 0, func() error { return d.SetOption(mangos.OptionReconnectTime, time.Second) })
+		_ = call("Socket.SetOption(ReconnectTime)", 0, func() error { return w.x.S.SetOption(mangos.OptionReconnectTime, time.Second) })
+		expect("Dialer.Close(again)", call("Dialer.Close2", 0, d.Close), mangos.ErrClosed)
+	}},
 	{"closed-pipe", nil, func(w *world) {
 		if len(w.pipes) == 0 {
 			return
@@ -269,17 +371,7 @@ func (w *world) followups() {
 		})
 	}
 	// the listener still accepts: a new peer attaches (patterns with a single peer first lose the old one)
-	if w.k.Name == "pair" || w.k.Name == "xpair" || w.k.Name == "pair1" || w.k.Name == "xpair1" {
-		for _, name := range []string{"c12", "c12-dial", "c12-hs", "c12-async", "c12-retry1", "c12-retry2", "c12-retry3"} {
-			ep := vt.Get(name)
-			for i := 0; i < ep.NumPipes(); i++ {
-				if ep.PipeAt(i).Alive() {
-					ep.PipeAt(i).DropNow()
-				}
-			}
-		}
-		kit.Quiesce()
-	}
+	w.dropAllPeers()
 	before := len(w.pipes)
 	np := w.x.EP.Connect()
 	kit.Quiesce()
@@ -450,4 +542,15 @@ func transportErrors() {
 	}
 	_ = call("Socket.Close", 0, s.Close)
 	kit.Count("followup-completed")
+}
+
+// dropAllPeers: patterns that take a single peer lose the ones they have, so that the next
+// connection can attach.
+func (w *world) dropAllPeers() {
+	if w.k.Name != "pair" && w.k.Name != "xpair" && w.k.Name != "pair1" && w.k.Name != "xpair1" {
+		return
+	}
+	vt.DropAll()
+	net.VResetAll()
+	kit.Quiesce()
 }
